@@ -4,6 +4,7 @@ import (
 	"context"
 	"fmt"
 	"io"
+	"reflect"
 	"strings"
 
 	"github.com/quay/claircore/rpm"
@@ -114,23 +115,60 @@ func sumReaderAt(ra io.ReaderAt) (size int64, sum uint64, err error) {
 
 // ---- bdb: PackageDB.Parse + AllHeaders ----
 
-func (h *harness) opBdb(b []byte, how string) {
+func (h *harness) opBdb(b []byte, how string) { h.opBdbX(b, how, true) }
+
+// bdbSections is the number of file sections a header handed out by
+// bdb.AllHeaders is made of (the length of the unexported rope.rd), or -1.
+func bdbSections(ra io.ReaderAt) int {
+	v := reflect.ValueOf(ra)
+	if v.Kind() != reflect.Pointer || v.IsNil() || v.Elem().Kind() != reflect.Struct {
+		return -1
+	}
+	f := v.Elem().FieldByName("rd")
+	if !f.IsValid() || f.Kind() != reflect.Slice {
+		return -1
+	}
+	return f.Len()
+}
+
+// opBdbX runs Parse + AllHeaders and reads every header handed out. With
+// model unset the file is too large for the line protocol and only the direct
+// oracles are evaluated.
+//
+// Direct oracles (each follows from the file-wide seen set of the chain walk,
+// theorem bdb_walk_linear: every overflow page is linked at most once):
+//
+//   - no page header is read more than twice (once by the page loop, once as a
+//     link of a chain),
+//   - Parse + AllHeaders make at most len(file)+64 reads (one per page, one per
+//     4-byte index entry, two per item, one per link),
+//   - the headers handed out are made of at most as many sections as the file
+//     has pages.
+func (h *harness) opBdbX(b []byte, how string, model bool) {
 	pages := len(b)/512 + 1
 	lr := newLimit(b, 600*pages+1000)
+	_, ps := bdbOrderOf(b)
+	lr.hdrLen, lr.hdrAlign = 26, int64(ps)
 	nh := 0
+	walkReads, sections := -1, 0
 	out := guard(func() string {
 		var db bdb.PackageDB
 		if err := db.Parse(lr); err != nil {
 			return "err:parse"
 		}
 		hs, err := db.AllHeaders(context.Background())
+		walkReads = lr.reads
 		if err != nil {
 			return "err:headers"
 		}
 		nh = len(hs)
 		var sb strings.Builder
 		fmt.Fprintf(&sb, "ok n=%d", len(hs))
+		lr.hdrAlign = 0 // reading the headers is not part of the walk
 		for _, ra := range hs {
+			if n := bdbSections(ra); n > 0 {
+				sections += n
+			}
 			size, sum, err := sumReaderAt(ra)
 			if err != nil {
 				fmt.Fprintf(&sb, " %d:short", size)
@@ -140,17 +178,52 @@ func (h *harness) opBdb(b []byte, how string) {
 		}
 		return sb.String()
 	})
+	wit := func() string {
+		if len(b) <= 8<<10 {
+			return "how=" + how + " db=" + hx.Hex(b)
+		}
+		return fmt.Sprintf("how=%s db=%s", how, h.dumpWitness("bdb", b))
+	}
 	switch out {
 	case "panic":
-		h.fail("", "bdb-panic (PackageDB.Parse + AllHeaders + reading the headers) how="+how+" db="+hx.Hex(b))
+		h.fail("", "bdb-panic (PackageDB.Parse + AllHeaders + reading the headers) "+wit())
 	case "hang":
-		h.fail("", fmt.Sprintf("bdb-does-not-terminate (more than %d reads of a %d-byte database) how=%s db=%s", lr.limit, len(b), how, hx.Hex(b)))
+		h.fail("", fmt.Sprintf("bdb-does-not-terminate (more than %d reads of a %d-byte database) %s", lr.limit, len(b), wit()))
+	}
+	if out != "panic" {
+		worstPage, worst := int64(-1), 0
+		for pg, n := range lr.hdr {
+			if n > worst || (n == worst && pg < worstPage) {
+				worstPage, worst = pg, n
+			}
+		}
+		switch {
+		case worst > 2:
+			h.fail("", fmt.Sprintf("bdb-page-walked-more-than-once: the header of page %d was read %d times (page loop + one chain = 2 at most); %d reads of a %d-byte database out=%.40s %s",
+				worstPage, worst, lr.reads, len(b), out, wit()))
+		case walkReads > len(b)+64:
+			h.fail("", fmt.Sprintf("bdb-reads-not-linear: Parse + AllHeaders made %d reads of a %d-byte database %s", walkReads, len(b), wit()))
+		case sections > len(b)/ps+1:
+			h.fail("", fmt.Sprintf("bdb-headers-hold-more-sections-than-pages: %d sections, %d pages %s", sections, len(b)/ps+1, wit()))
+		}
+		if worst > 0 {
+			h.r.Count(fmt.Sprintf("bdb-page-header-reads-max:%d", worst))
+		}
 	}
 	for _, m := range strings.Split(how, "+") {
+		if i := strings.IndexByte(m, ','); i > 0 {
+			m = m[:i]
+		}
 		h.r.Count("bdb:" + m)
 	}
 	h.r.Count("bdb-out:" + strings.Fields(out)[0])
-	h.r.Op("bdb "+hx.Hex(b), out, out != "err:parse" && (nh > 0 || out == "err:headers"))
+	h.r.Count(fmt.Sprintf("bdb-pagesize:%d", ps))
+	nontrivial := out != "err:parse" && (nh > 0 || out == "err:headers")
+	if model {
+		h.r.Op("bdb "+hx.Hex(b), out, nontrivial)
+	} else {
+		h.r.Case(fmt.Sprintf("bdb-large %s seed=%d", how, h.cfg.Seed), nontrivial)
+	}
 }
 
 func (h *harness) someHeaders(max int) [][]byte {
@@ -165,6 +238,13 @@ func (h *harness) someHeaders(max int) [][]byte {
 func (h *harness) bdbStream() {
 	n := h.cfg.N(500, 15000)
 	for i := 0; i < n && !h.r.Stop(); i++ {
+		if h.rnd.Chance(1, 5) {
+			// many items leading into the same overflow pages; small pages so
+			// that the model answers the same line
+			f := genBdbFan(h.rnd, 1024, 12<<10)
+			h.opBdb(f.build(), f.String())
+			continue
+		}
 		base := genBdb(h.rnd, h.someHeaders(5))
 		if h.rnd.Chance(1, 6) {
 			h.opBdb(base, "wellformed")
@@ -172,6 +252,17 @@ func (h *harness) bdbStream() {
 		}
 		m, how := mutateBdb(h.rnd, base)
 		h.opBdb(m, how)
+	}
+}
+
+// bdbFanStream: the same shapes at every page size up to 64 KiB (a page then
+// carries thousands of index entries), too large for the line protocol: direct
+// oracles only.
+func (h *harness) bdbFanStream() {
+	n := h.cfg.N(60, 1200)
+	for i := 0; i < n && !h.r.Stop(); i++ {
+		f := genBdbFan(h.rnd, 65536, h.cfg.N(1<<20, 4<<20))
+		h.opBdbX(f.build(), f.String(), false)
 	}
 }
 
